@@ -322,6 +322,20 @@ def step (line : String) : String :=
         s!"{head} POLLS {k} READY {log.readyPolls} FUT {log.futurePolls} CALLS {log.calls.length}"
       | none => "NOT-FINISHED"
     | _, _, _ => "bad-op"
+  | ["RENDER", kind, key] =>
+    let kk : Option KeyKind := match kind with
+      | "secret" => some .secret | "date" => some .date | "region" => some .region
+      | "service" => some .service | "signing" => some .signing | _ => none
+    match kk, unhex key with
+    | some k, some key => s!"{renderKeyDebug k key}|{renderKeyDisplay k key}"
+    | _, _ => "bad-op"
+  | ["RENDERRESP", p, q, key] =>
+    match unhex p, unhex q, unhex key with
+    | some p, some q, some key =>
+      match String.fromUTF8? (ByteArray.mk p.toArray), String.fromUTF8? (ByteArray.mk q.toArray) with
+      | some ps, some qs => renderResponseDebug ps qs key
+      | _, _ => "bad-op"
+    | _, _, _ => "bad-op"
   | "OBS" :: rest => match parseCase rest with
     | some c =>
       let o := observe H c.cfg scriptProvider [c.entry] c.req
